@@ -7,8 +7,12 @@ pub async fn on_did_change_watched_files(
     context: ServerContextSnapshot,
     params: DidChangeWatchedFilesParams,
 ) -> Option<()> {
-    let workspace = context.workspace_manager().read().await;
+    // Lock order: analysis before workspace_manager, as in the request handlers (which take
+    // workspace_manager.read() while holding analysis.read()). Waiting for the analysis while
+    // holding the workspace manager deadlocks against them as soon as a writer is queued on the
+    // (fair) workspace_manager lock.
     let mut analysis = context.analysis().write().await;
+    let workspace = context.workspace_manager().read().await;
     let emmyrc = analysis.get_emmyrc();
     let encoding = &emmyrc.workspace.encoding;
     let interval = emmyrc.diagnostics.diagnostic_interval.unwrap_or(500);
@@ -47,11 +51,9 @@ pub async fn on_did_change_watched_files(
                     continue;
                 }
                 let config_path = uri_to_file_path(&file_event.uri).unwrap();
-                context
-                    .workspace_manager()
-                    .read()
-                    .await
-                    .add_update_emmyrc_task(context.clone(), config_path);
+                // reuse the guard: re-acquiring a read lock that is already held blocks forever
+                // once a writer is queued in between
+                workspace.add_update_emmyrc_task(context.clone(), config_path);
             }
             None => {}
         }
